@@ -37,6 +37,7 @@ type c07Op struct {
 	E   *common.JEvent   `json:"e,omitempty"`
 	B   int64            `json:"b"`
 	D   *int64           `json:"d"`
+	X   bool             `json:"x,omitempty"` // det: the client disconnects right after sending this operation
 }
 
 type c07Msg struct {
@@ -263,9 +264,70 @@ func (s *c07Session) markStuck() {
 	c07SawStuck.Store(true)
 }
 
+// execCut hands one operation to the relay and disconnects at once, without
+// waiting for the reply: the session's context is cancelled while the
+// operation is in flight.  Two operations are recorded: the operation itself
+// (with an end stamp only if its reply arrived all the same) and the disconnect.
+func (s *c07Session) execCut(op c07Op) {
+	w := s.w
+	h := c07Op{C: s.idx, O: op.O, Sub: op.Sub, Fs: op.Fs, E: op.E, X: true}
+	var m mocrelay.ClientMsg
+	switch op.O {
+	case "req":
+		m = &mocrelay.ClientReqMsg{SubscriptionID: op.Sub, ReqFilters: common.ToFilters(op.Fs)}
+	case "count":
+		m = &mocrelay.ClientCountMsg{SubscriptionID: op.Sub, ReqFilters: common.ToFilters(op.Fs)}
+	case "event":
+		m = &mocrelay.ClientEventMsg{Event: op.E.ToEvent()}
+	case "close":
+		m = &mocrelay.ClientCloseMsg{SubscriptionID: op.Sub}
+	default:
+		return
+	}
+	// replies of earlier operations have all been consumed
+	for len(s.replyCh) > 0 {
+		<-s.replyCh
+	}
+	h.B = w.tick()
+	if !s.sendMsg(m) {
+		s.markStuck()
+		w.addHop(h)
+		return
+	}
+	dh := c07Op{C: s.idx, O: "disc"}
+	dh.B = w.tick()
+	s.cancel()
+	t := time.NewTimer(c07Timeout())
+	select {
+	case <-s.done:
+		close(s.stopCh)
+		<-s.rdDone
+		d := w.tick()
+		dh.D = &d
+	case <-t.C:
+		s.markStuck()
+	}
+	t.Stop()
+	s.gone = true
+	if op.O != "close" {
+		select {
+		case <-s.replyCh:
+			d := w.tick()
+			h.D = &d
+		default:
+		}
+	}
+	w.addHop(h)
+	w.addHop(dh)
+}
+
 // exec runs one client-visible operation and records it.
 func (s *c07Session) exec(op c07Op) {
 	w := s.w
+	if op.X {
+		s.execCut(op)
+		return
+	}
 	h := c07Op{C: s.idx, O: op.O, Sub: op.Sub, Fs: op.Fs, E: op.E}
 	switch op.O {
 	case "req", "count", "event":
@@ -513,7 +575,7 @@ func c07RunDet(c *c07Case) {
 			}
 			s.exec(op)
 			// CLOSE has no reply: a COUNT on the same connection is answered only after it
-			if !s.dead {
+			if !s.dead && !op.X {
 				s.exec(c07Op{O: "count", Sub: c07AckSub, Fs: c07Filters1("~")})
 			}
 		case "disc":
@@ -668,6 +730,14 @@ func c07GenDet(r *common.Rand) c07Case {
 			if paused[x] {
 				c.Script = append(c.Script, c07Op{C: x, O: "resume"})
 				paused[x] = false
+			}
+		}
+		// now and then the client disconnects right after sending, without waiting for the reply
+		if last := len(c.Script) - 1; last >= 0 && c.Script[last].C == x && alive[x] && !paused[x] && r.Chance(7) {
+			switch c.Script[last].O {
+			case "req", "event", "count", "close":
+				c.Script[last].X = true
+				alive[x] = false
 			}
 		}
 		n := 0
